@@ -53,10 +53,10 @@ Definition ro_is_file (w : world) (k : conn) (X : bytes) : Prop :=
   exists h i x, ro k = Some (VPlain h) /\ hobj_ h = HFile i /\ get_inode (inodes w) i = Some x /\ idata x = X.
 
 Lemma view_read_file w h i x off n :
-  hobj_ h = HFile i -> get_inode (inodes w) i = Some x -> 0 <= off -> 0 <= n ->
+  hobj_ h = HFile i -> get_inode (inodes w) i = Some x -> 0 <= off <= fs_max_offset -> 0 <= n ->
   view_read w (VPlain h) off n = Ok (slice (idata x) off n).
 Proof.
-  intros Hh Hi Ho Hn. unfold view_read, h_read_at, fs_read. replace (off <? 0) with false by lia.
+  intros Hh Hi Ho Hn. unfold view_read, h_read_at, fs_read. replace ((off <? 0) || (fs_max_offset <? off)) with false by lia.
   rewrite Hh, Hi. destruct (n <=? 0) eqn:E; [|reflexivity].
   assert (n = 0) by lia. subst. unfold slice.
   destruct ((off <? 0) || (zlen (idata x) <=? off)) eqn:E2; [reflexivity|].
@@ -65,27 +65,39 @@ Qed.
 
 (* READ_FILE: the exact count, then exactly the bytes [off, min(off+n, size)); nothing changes *)
 Theorem read_file_exact c w k X n off :
-  ro_is_file w k X -> 0 <= n -> 0 <= off < 2 ^ 63 ->
+  ro_is_file w k X -> 0 <= n -> 0 <= off <= fs_max_offset ->
   step c w k (RReadFile n off) = done w k (be32 (wrap32 (zlen (slice X off n))) ++ slice X off n).
 Proof.
   intros (h & i & x & Hro & Hh & Hi & HX) Hn Ho. cbn [step]. rewrite Hro.
-  replace (off <? 2 ^ 63) with true by lia.
+  replace (off <? 2 ^ 63) with true by (unfold fs_max_offset in *; lia).
   rewrite (view_read_file w h i x off n Hh Hi) by lia. rewrite HX. reflexivity.
 Qed.
 
 (* READ_FILE_CRITICAL: the raw bytes; the connection survives iff all n bytes were there *)
 Theorem read_critical_exact c w k X n off :
-  ro_is_file w k X -> 0 <= n -> 0 <= off < 2 ^ 63 ->
+  ro_is_file w k X -> 0 <= n -> 0 <= off <= fs_max_offset ->
   step c w k (RReadFileCritical n off) =
   if (n =? 0) || (off + n <=? zlen X) then done w k (slice X off n) else hangup w k (slice X off n).
 Proof.
   intros (h & i & x & Hro & Hh & Hi & HX) Hn Ho. cbn [step]. rewrite Hro.
-  replace (off <? 2 ^ 63) with true by lia.
+  replace (off <? 2 ^ 63) with true by (unfold fs_max_offset in *; lia).
   rewrite (view_read_file w h i x off n Hh Hi) by lia. rewrite HX.
   pose proof (slice_length_eq X off n ltac:(lia)) as L. pose proof (zlen_nonneg X).
   destruct ((n =? 0) || (off + n <=? zlen X)) eqn:E.
   - replace (zlen (slice X off n) =? n) with true by lia. reflexivity.
   - replace (zlen (slice X off n) =? n) with false by lia. reflexivity.
+Qed.
+
+(* an offset that lseek refuses - negative as a signed 64-bit number, or beyond what the filesystem can address -
+   ends the connection without a byte, for both read commands *)
+Theorem read_offset_refused c w k X n off :
+  ro_is_file w k X -> 0 <= off < 2 ^ 64 -> 2 ^ 63 <= off \/ fs_max_offset < off ->
+  step c w k (RReadFile n off) = hangup w k [] /\ step c w k (RReadFileCritical n off) = hangup w k [].
+Proof.
+  intros (h & i & x & Hro & Hh & Hi & HX) Hr Ho. cbn [step]. rewrite Hro. unfold view_read.
+  destruct (off <? 2 ^ 63) eqn:E.
+  - replace ((off <? 0) || (fs_max_offset <? off)) with true by lia. auto.
+  - replace ((off - 2 ^ 64 <? 0) || (fs_max_offset <? off - 2 ^ 64)) with true by lia. auto.
 Qed.
 
 (* OPEN_FILE announces the size and mtime of the object it opened *)
@@ -121,12 +133,14 @@ Fixpoint cd_sectors (X : bytes) (S off : Z) (cnt : nat) : bytes :=
   end.
 
 Lemma cd_read_in_range w h i x S : forall cnt off,
-  hobj_ h = HFile i -> get_inode (inodes w) i = Some x -> 0 <= off -> 0 < S ->
+  hobj_ h = HFile i -> get_inode (inodes w) i = Some x -> 0 <= off -> 0 < S -> zlen (idata x) <= fs_max_offset ->
   off + (Z.of_nat cnt - 1) * S + cd_read_size <= zlen (idata x) \/ cnt = O ->
   cd_read w (VPlain h) S off cnt = (cd_sectors (idata x) S off cnt, true).
 Proof.
-  induction cnt as [|k IH]; intros off Hh Hi Ho HS Hr; cbn [cd_read cd_sectors]; [reflexivity|].
+  induction cnt as [|k IH]; intros off Hh Hi Ho HS Hmax Hr; cbn [cd_read cd_sectors]; [reflexivity|].
   destruct Hr as [Hr|Hr]; [|discriminate].
+  assert (0 < cd_read_size) as Hcd by (unfold cd_read_size; lia).
+  assert (off <= fs_max_offset) by nia.
   rewrite (view_read_file w h i x off cd_read_size Hh Hi) by (auto; unfold cd_read_size; lia).
   pose proof (slice_length_eq (idata x) off cd_read_size Ho) as L.
   assert (0 < cd_read_size) by (unfold cd_read_size; lia).
@@ -136,12 +150,12 @@ Qed.
 
 (* READ_CD_2048(start, cnt) in range: exactly the user data [24 + (start+j)*S, +2048) of each sector *)
 Theorem read_cd_exact c w k X start cnt :
-  ro_is_file w k X -> 0 < cdsec k -> 0 <= start -> 0 <= cnt ->
+  ro_is_file w k X -> 0 < cdsec k -> 0 <= start -> 0 <= cnt -> zlen X <= fs_max_offset ->
   psx_prefix + (start + cnt - 1) * cdsec k + cd_read_size <= zlen X \/ cnt = 0 ->
   step c w k (RReadCD start cnt) =
   done w k (cd_sectors X (cdsec k) (psx_prefix + start * cdsec k) (Z.to_nat cnt)).
 Proof.
-  intros (h & i & x & Hro & Hh & Hi & HX) HS Hs Hc Hr. cbn [step]. rewrite Hro.
+  intros (h & i & x & Hro & Hh & Hi & HX) HS Hs Hc Hmax Hr. cbn [step]. rewrite Hro.
   replace (cdsec k <=? 0) with false by lia.
   unfold view_stat, h_stat. rewrite Hh. cbn [node_info]. rewrite Hi. cbn [fi_size].
   assert (Z.min cnt (zlen (idata x) / cdsec k + 2) = cnt) as ->.
@@ -186,6 +200,7 @@ Proof.
   set (base := psx_prefix + system_area_sectors * hd 0 sector_sizes) in *.
   assert (0 <= base) by (vm_compute; discriminate).
   assert (0 <= detect_buf_len) by (vm_compute; discriminate).
+  assert (base <= fs_max_offset) by (vm_compute; discriminate).
   rewrite (view_read_file w h i x base detect_buf_len Hh Hi) by lia.
   pose proof (slice_length_eq (idata x) base detect_buf_len ltac:(lia)) as L.
   replace (zlen (slice (idata x) base detect_buf_len) =? detect_buf_len) with true by lia.
